@@ -193,6 +193,31 @@ def step (st : DState) (line : String) : DState × String :=
             | .error _ => (st, "(ok unprojectable)")
         | .error _ => (st, "(bad-op smem-undecodable)")
       | _, _, _, _, _ => (st, "(bad-op smem)")
+    | .list [.atom "smemh", .atom sh, .atom name, .atom ver, v, .atom baseS, .atom objHex, .list segs] =>
+      -- the same with the heap: the object's bytes at their real address and what the words of the object that
+      -- look like pointers lead to; `holdsAt` follows the headers of collections whose layout the schema records
+      match parseHex sh, st.env.lookup name, ver.toNat?, parseV v, baseS.toNat?, parseHex objHex with
+      | some sb, some ty, some ver, some v, some base, some obj =>
+        let parseSeg : Sx → Option (Nat × ByteArray) := fun x =>
+          match x with
+          | .list [.atom a, .atom h] =>
+            match a.toNat?, parseHex h with
+            | some a, some b => some (a, ByteArray.mk b.toArray)
+            | _, _ => none
+          | _ => none
+        match segs.mapM parseSeg, decSchema st.cfg 2 (sb.length + 1) sb with
+        | some segs, .ok (s, _) =>
+          if !layoutCompatible s s then (st, "(ok no-layout)")
+          else
+            match proj ty ver v with
+            | .ok wv =>
+              let all := (base, ByteArray.mk obj.toArray) :: segs
+              let mem : Mem := fun a =>
+                all.findSome? (fun (seg : Nat × ByteArray) => if seg.1 ≤ a ∧ a < seg.1 + seg.2.size then some (seg.2.get! (a - seg.1)) else none)
+              (st, if holdsAt mem base s wv then "(ok holds)" else "(ok memory-is-not-what-the-schema-prescribes)")
+            | .error _ => (st, "(ok unprojectable)")
+        | _, _ => (st, "(bad-op smemh-undecodable)")
+      | _, _, _, _, _, _ => (st, "(bad-op smemh)")
     | .list [.atom "ext", .atom writer, .atom reader, .atom ver] =>
       -- hypothesis of c03_upgrade / c18_downgrade: everything the writer's grammar at `ver` encodes is
       -- encoded identically by the reader's grammar at `ver`
